@@ -253,13 +253,13 @@ Definition file_codes (P : program) (via : N) (fname : bytes) (obs : option fdes
       let m := descriptor_of f in
       let x := project_a f in
       let y := project_d d in
-      flag (fdesc_equiv d m) 1 ++
+      flag (fdesc_equivb d m) 1 ++
       match wire with
       | Some raw =>
           match dec_struct raw with
           | Some (w, _) =>
               flag (weq_mod false w (enc_fdesc d)) 1 ++
-              flag (match dec_fdesc w with Some d' => fdesc_equiv d' d | None => false end) 1
+              flag (match dec_fdesc w with Some d' => fdesc_equivb d' d | None => false end) 1
           | None => [1%N]
           end
       | None => if N.eqb via 0 then [10%N] else []
